@@ -451,7 +451,9 @@ func actions(cdc codec.Codec, d *delivery, thorough bool) []action {
 		[]byte{})
 	mustDistinctPadded(payers)
 	ids := pick(thorough, []uint64{1, 256, 1 << 63}, math.MaxUint64)
-	deadlines := pick(thorough, []int64{1, math.MaxInt64}, 1_700_000_600)
+	// deadlines are int64 in the messages and uint256 on the wire: zero and negative values (packed as
+	// two's complement) are deliverable values like any other and must stay bound
+	deadlines := pick(thorough, []int64{1, math.MaxInt64, 0, -1}, 1_700_000_600, -2, math.MinInt64)
 	turnstones := pick(thorough,
 		[]string{world.CompassID, "verif-compass-2", "0123456789abcdef0123456789abcdef"},
 		"")
